@@ -3,7 +3,7 @@ import vlib
 CFG = dict(
     imports=["From Verif.C15 Require Import Model Spec."],
     checker="check_case",
-    n=dict(quick=140, thorough=6000),
+    n=dict(quick=140, thorough=1680),
     shard=40,
     rule="real iptables.Table (legacy backend 3/4 and BackendMode nft 1/4, table filter) over testutils.MockDataplane: generated starting kernel tables "
          "(foreign chains/rules, stale cali-/felix-/califw- chains, old-hash and old-insert Felix rules and current rules in any "
